@@ -553,6 +553,23 @@ static void modeVars(int argc, char** argv, Rng& rng)
     while (k < nvars && ++idx[k] == values.size()) idx[k++] = 0;
     if (k == nvars) break;
   }
+  // every map over the three names with values of at most one atom: the smallest maps with a cycle that does
+  // not go through the first variable (a=$(b), b=$(c), c=$(b))
+  if (nvars < 3 || items > 1)
+  {
+    std::vector<std::string> v1(1, "");
+    for (const char* a : atoms) v1.push_back(a);
+    for (size_t i = 0; i < v1.size(); ++i)
+      for (size_t j = 0; j < v1.size(); ++j)
+        for (size_t k = 0; k < v1.size(); ++k)
+        {
+          std::map<std::string, std::string> m;
+          m["a"] = v1[i];
+          m["b"] = v1[j];
+          m["c"] = v1[k];
+          resolveCase(m, false);
+        }
+  }
   // seeded: three variables, longer values, undefined names, sometimes ill-formed
   for (long i = 0; i < nrand; ++i)
   {
